@@ -140,3 +140,27 @@ PROPS["C03"] = dict(
     rule=_DECODE_RULE + "Non-trivial = a result with >= 3 segments of which at least one is a filler or a null marker; distinct = distinct case text.",
     assumptions=["16 kHz / 100 frames per second decoders (410-sample window, 160-sample shift)"],
 )
+
+PROPS["C11"] = dict(
+    harness="decode",
+    level="exploration",
+    technique="property-based testing of graph invariants on generated decodes: acyclicity, start/end reachability, link time adjacency, every lattice path simulated on the grammar the search holds, first-best segmentation found as a chain of linked nodes, cache identity",
+    level_text="The lattice is requested after chunks and at the end of generated decodes and copied out through the public node/link iterators; DFS/topological checks decide acyclicity and that every node lies on a start-end path; every link joins frame t to t+1 inside the utterance; (node, grammar-state-set) pairs are propagated along all paths of the DAG so that every path is simulated on the augmented grammar; the 1-best segmentation must be a chain of linked nodes; asking twice returns the same object.",
+    level_note="Trusted: latalg.h / fsa.h. Synthetic <s>/</s> nodes are recognised by spelling at the start/end position and treated as zero-length. NULL lattices are allowed by the documentation and counted, not judged. Pair propagation is capped at 50,000 pairs (labelled).",
+    quick=dict(cases=110, maxlen=600, budget=100),
+    thorough=dict(cases=6000, maxlen=600, budget=1200),
+    rule=_DECODE_RULE + "Non-trivial = a lattice with >= 4 nodes and >= 2 distinct start-to-end paths; distinct = distinct case text.",
+    assumptions=["grammar words are dictionary words"],
+)
+
+PROPS["C12"] = dict(
+    harness="decode",
+    level="exploration",
+    technique="property-based testing with independent recomputation over the lattice: longest-path DP, exhaustive path enumeration (<= 20000 paths), long-double forward/backward with a per-link rounding bound derived from the log-add error",
+    level_text="On the lattices of generated decodes: lattice_bestpath must return a link into the end node whose score equals an independent longest-path DP and whose best_prev chain is a connected start-end path summing to that score; alpha/beta/normaliser are compared with a long-double forward-backward within a bound accumulated from 0.5 unit per log-add; posteriors <= 0 within that bound; forward and backward totals agree; N-best scores are non-increasing, the first equals the best path, each hypothesis is the word sequence and score of an enumerated start-end path and its segmentation is a chain of linked nodes.",
+    level_note="Trusted: latalg.h, libm long double. N-best is read after best-path/posterior (not interleaved: both reuse one per-node scratch field). Lattices that already violate C11's reachability invariants are skipped (labelled) and left to C11.",
+    quick=dict(cases=110, maxlen=600, budget=100),
+    thorough=dict(cases=6000, maxlen=600, budget=1200),
+    rule=_DECODE_RULE + "Non-trivial = the N-best list holds >= 2 distinct word sequences; distinct = distinct case text.",
+    assumptions=["the per-link term (ascr<<10)*ascale is computed with the same float expression as the library; only log-add rounding is bounded"],
+)
